@@ -68,6 +68,29 @@ pub fn families(prop: &str, tier: Tier) -> Vec<Cfg> {
         x.dev = 0;
         v.push(x);
     }
+    // refusing PUBACKs / PUBRECs with every failure code MQTT 5 defines for them, on first and resumed connections
+    const REFUSALS: [(&str, &str); 5] = [
+        ("C02", "C02-every-refusing-reason-code-also-after-a-resume"),
+        ("C03", "C03-every-refusing-reason-code-also-after-a-resume"),
+        ("C06", "C06-every-refusing-reason-code-also-after-a-resume"),
+        ("C16", "C16-every-refusing-reason-code-also-after-a-resume"),
+        ("C18", "C18-every-refusing-reason-code-also-after-a-resume"),
+    ];
+    if let Some((p, name)) = REFUSALS.iter().find(|(p, _)| *p == prop) {
+        let q = tier == Tier::Quick;
+        let mut x = Cfg::base(name);
+        x.props = vec![p];
+        x.ops = vec![OpK::Pub1, OpK::Pub2, OpK::Poll, OpK::DropConn];
+        x.io = IoMenu::benign();
+        x.broker.ack_fail = true;
+        x.broker.fail_codes = vec![0x80, 0x83, 0x87, 0x90, 0x91, 0x97, 0x99];
+        x.broker.receive_max = vec![Some(2)];
+        x.max_ops = if q { 6 } else { 7 };
+        x.max_conns = 2;
+        x.max_reqs = 2;
+        x.dev = 0;
+        v.push(x);
+    }
     // a session that lives through five connections; and one configured with Session Expiry Interval 0 (the broker
     // never has a session to resume)
     const LONG: [&str; 7] = ["C02", "C03", "C05", "C06", "C12", "C16", "C18"];
@@ -1355,7 +1378,29 @@ fn families_of(prop: &str, tier: Tier) -> Vec<Cfg> {
             g.max_conns = 1;
             g.max_reqs = 1;
             g.dev = 2;
-            vec![a, b, c, d, e, f, g, h]
+            // a keep-alive probe left half written by a dropped poll(), then disconnect() (or any other call)
+            let mut kp = Cfg::base("C13-keepalive-probe-half-written-then-disconnect");
+            kp.props = vec!["C13"];
+            kp.twin = Some(Twin::Cancel);
+            kp.drain_script = true;
+            kp.prune = false;
+            kp.cancel = true;
+            kp.cancel_connect = false;
+            kp.cancel_only = Some(vec![OpK::Poll]);
+            kp.keepalive = 10;
+            kp.no_cancel_while_idle = true;
+            kp.ops = vec![OpK::Poll, OpK::Disconnect, OpK::Pub1];
+            kp.io = IoMenu::benign();
+            kp.io.write_partial = true;
+            kp.io.write_pending = true;
+            kp.io.all_partials_upto = 4;
+            kp.broker.reorder_window = 1;
+            kp.broker.fifo = true;
+            kp.max_ops = if q { 4 } else { 5 };
+            kp.max_conns = 1;
+            kp.max_reqs = 1;
+            kp.dev = 2;
+            vec![a, b, c, d, e, f, g, h, kp]
         }
         "C15" => {
             let mut a = Cfg::base("C15-partial-and-pending-transport-answers");
@@ -1520,6 +1565,19 @@ fn families_of(prop: &str, tier: Tier) -> Vec<Cfg> {
             rl.max_conns = if q { 2 } else { 3 };
             rl.max_reqs = if q { 3 } else { 4 };
             rl.dev = 0;
+            // an inbound publish is handed over, the application stays away while the keep-alive probe falls due, then
+            // calls again: the owed acknowledgement and the probe go through the same queue
+            let mut ap = Cfg::base("C16-owed-acknowledgement-and-keepalive-probe-together");
+            ap.props = vec!["C16"];
+            ap.keepalive = 4;
+            ap.ops = vec![OpK::Poll, OpK::Pub1, OpK::Sleep];
+            ap.sleeps = vec![2_500];
+            ap.io = IoMenu::benign();
+            ap.broker.script = vec![inpub(1, 21), inpub(2, 22)];
+            ap.max_ops = if q { 5 } else { 6 };
+            ap.max_conns = 1;
+            ap.max_reqs = 1;
+            ap.dev = 0;
             // inbound publishes exactly as long as the receive buffer (the Maximum Packet Size the client advertised)
             let mut ex = Cfg::base("C16-inbound-publish-exactly-the-size-of-the-receive-buffer");
             ex.props = vec!["C16"];
@@ -1644,7 +1702,7 @@ fn families_of(prop: &str, tier: Tier) -> Vec<Cfg> {
             sk.max_conns = 2;
             sk.max_reqs = 1;
             sk.dev = 0;
-            vec![a, b, c, d, e, f, g, h, i, j, sk, rl, ex]
+            vec![a, b, c, d, e, f, g, h, i, j, sk, rl, ex, ap]
         }
         "C18" => {
             let mut a = Cfg::base("C18-status-after-every-step");
